@@ -833,6 +833,86 @@ pub const C11: MbSpec = MbSpec {
     extra: None,
 };
 
+// C11 part `stop_after_kill`: DIE / SQUIT from an operator stops the server whatever the operator
+// has just done to individual users in the same write (KILLs, also of the same nick twice); from
+// anybody else it stops nothing.
+#[derive(Clone, Debug, serde_derive::Serialize, serde_derive::Deserialize)]
+pub struct StopCase {
+    pub seeds: Vec<u16>,
+}
+
+pub fn c11_stop_case(c: &StopCase, st: &mut Stats) -> Result<(), Viol> {
+    use crate::sim::World;
+    let mut s = S::new(&c.seeds);
+    let seed = s.raw() as u64;
+    let mut cfg = CfgSpec::default();
+    cfg.opers.push(OperSpec { name: "op0".into(), password: "operpw0".into(), mask: None });
+    let mut w = World::new(cfg.to_main_config(), seed);
+    let n = 3 + s.pick(3);
+    for i in 0..n {
+        let cc = w.connect();
+        w.send_line(cc, &format!("NICK n{}", i));
+        w.send_line(cc, &format!("USER u{} 0 * :Real n{}", i, i));
+        w.settle();
+        w.drain(cc);
+    }
+    w.send_line(0, "OPER op0 operpw0");
+    w.settle();
+    w.drain(0);
+    let by_oper = s.chance(75);
+    let sender = if by_oper { 0 } else { 1 };
+    let mut blob = String::new();
+    let kills = s.pick(3);
+    let mut victims = vec![];
+    for _ in 0..kills {
+        let v = 2 + s.pick(n - 2);
+        victims.push(v);
+        blob += &format!("KILL n{} :on the way out\r\n", v);
+    }
+    let stop = ["DIE :bye", "DIE", "SQUIT irc.irc :bye"][s.pick(3)];
+    blob += stop;
+    blob += "\r\n";
+    w.send_bytes(sender, blob.as_bytes());
+    w.settle();
+    w.settle();
+    let stopped = w.quit_seen.is_some();
+    let mut log = vec![format!("c{} ({}) > {}", sender, if by_oper { "operator" } else { "ordinary user" }, blob.replace("\r\n", " | "))];
+    for cc in 0..n {
+        for l in w.drain(cc) {
+            log.push(format!("c{} < {}", cc, l));
+        }
+    }
+    crate::sim::set_in_sim(false);
+    let panics = crate::sim::take_panics();
+    st.nontrivial(format!("{}|k{}|{}|dup{}", by_oper, kills, stop.split(' ').next().unwrap_or(""), (victims.len() == 2 && victims[0] == victims[1]) as u8), || {
+        serde_json::json!({"sender": if by_oper { "operator" } else { "user" }, "kills_before": kills, "stop": stop})
+    });
+    if let Some(p) = panics.iter().find(|p| p.task.is_some()) {
+        return Err(Viol::new("C11.handler_abort", "stop:panic", format!("`{}` aborted the handler: {} at {}", blob.replace("\r\n", " | "), p.msg, p.loc)).with_transcript(log));
+    }
+    if by_oper && !stopped {
+        return Err(Viol::new("C11.operator_stops_server", format!("stop:not-stopped:{}", stop.split(' ').next().unwrap_or("")), format!("an operator sent `{}` in one write and the server keeps running", blob.replace("\r\n", " | "))).with_transcript(log));
+    }
+    if !by_oper && stopped {
+        return Err(Viol::new("C11.only_operators_stop", "stop:by-user", format!("an ordinary user's `{}` stopped the server", stop)).with_transcript(log));
+    }
+    Ok(())
+}
+
+pub fn run_c11(ctx: &RunCtx) -> Vec<PartOutcome> {
+    use proptest::prelude::*;
+    let mut parts = run_spec(ctx, &C11, 6000, 100000);
+    parts.push(explore(ctx, "stop_after_kill", ctx.tier.pick(600, 8_000), || prop::collection::vec(any::<u16>(), 8).prop_map(|seeds| StopCase { seeds }), c11_stop_case));
+    parts
+}
+
+pub fn replay_c11(part: &str, input: &Value) -> Option<Result<Result<(), Viol>, String>> {
+    match part {
+        "stop_after_kill" => Some(replay_input::<StopCase>(input, c11_stop_case)),
+        _ => replay_spec(&C11, part, input),
+    }
+}
+
 // ------------------------------------------------------------------------------------- C15
 fn c15_build(cfg: &[u16]) -> Built {
     let mut s = S::new(cfg);
